@@ -125,6 +125,14 @@ func (g *Gen) Generate() *Program {
 	if g.on("profile.nest") && g.R.Chance(1, 6) {
 		g.nest = true
 		g.feat("profile.nest")
+		var sb []byte
+		for k, nk := 0, g.R.Range(2, 4); k < nk; k++ {
+			sb = append(sb, "LLsSs"[g.R.Intn(5)])
+		}
+		if sb[0] != 'L' && g.R.Chance(2, 3) {
+			sb = append([]byte{'L'}, sb...)
+		}
+		g.script = string(sb) + "C"
 	}
 	r := g.R
 	// --- structs & resources ---
